@@ -135,6 +135,86 @@ impl Workload for NearIds {
     }
 }
 
+/// Programs compiled together with a base description whose own paths refer to its own schemas: whatever the program
+/// contributes (nothing, one resource, several), the merged document must be closed.
+pub struct WithBase {
+    pub n: u64,
+}
+
+fn with_base_case(seed: u64, idx: u64) -> (Sources, Value) {
+    let mut rng = crate::util::Rng::for_case(seed, "c03base", idx);
+    let mut base = crate::gen::base::gen_base(&mut rng, idx % 2 == 0);
+    // paths of the base that point into the base's schemas, and a schema that points at another one
+    base["paths"] = json!({
+        "/health": {"get": {"operationId": "base-health", "responses": {"200": {"description": "ok", "content": {"application/json": {"schema": {"$ref": "#/components/schemas/Health"}}}}}}},
+        "/legacy/{id}": {"parameters": [{"name": "id", "in": "path", "required": true, "schema": {"type": "string"}}], "get": {"operationId": "base-legacy", "responses": {"200": {"description": "ok"}}}}
+    });
+    if base.get("components").is_none() {
+        base["components"] = json!({});
+    }
+    base["components"]["schemas"] = json!({"Health": {"type": "object", "properties": {"detail": {"$ref": "#/components/schemas/Detail"}}}, "Detail": {"type": "string"}});
+    let text = match idx % 4 {
+        0 => "let unused = { 'a num };\n".to_owned(),
+        1 => "let t = rec x { 'next x };\nlet unused = [t];\n".to_owned(),
+        2 => "res /items/{ 'id str } on get -> <{ 'a num }>;\n".to_owned(),
+        _ => "let t = rec x { 'next x };\nres /items on get -> <t>;\nres /health on put -> <>;\n".to_owned(),
+    };
+    (Sources::single(&text), base)
+}
+
+fn check_with_base(src: &Sources, base: &Value, st: &mut Stats) -> Vec<Violation> {
+    let parsed: openapiv3::OpenAPI = match serde_json::from_value(base.clone()) {
+        Ok(p) => p,
+        Err(_) => {
+            st.inc("base_not_parseable_skipped");
+            return vec![];
+        }
+    };
+    match pipeline::run(src, Some(parsed)) {
+        Outcome::Doc { json: doc, .. } => {
+            st.inc("documents_with_base");
+            if doc.get("paths").and_then(Value::as_object).is_some_and(|p| p.is_empty()) {
+                st.inc("documents_with_base_and_no_resource");
+            }
+            let mut out = Vec::new();
+            for p in validate(&doc) {
+                out.push(Violation::new(
+                    "the document built on a base description is not closed / structurally valid",
+                    json!({"signature": format!("C03 with-base {}", p.class), "detail": p.detail, "sources": src.to_json(), "base": base}),
+                ));
+            }
+            out.truncate(3);
+            out
+        }
+        Outcome::Panic { info, .. } => vec![Violation::new(
+            "building the document on a base description panicked",
+            json!({"signature": format!("C03 with-base panic {}", info.signature()), "sources": src.to_json()}),
+        )],
+        _ => vec![],
+    }
+}
+
+impl Workload for WithBase {
+    fn len(&self) -> u64 {
+        self.n
+    }
+    fn case_json(&self, seed: u64, idx: u64) -> Value {
+        let (s, b) = with_base_case(seed, idx);
+        json!({"sources": s.to_json(), "base": b})
+    }
+    fn run(&self, seed: u64, idx: u64, st: &mut Stats) -> Vec<Violation> {
+        let (s, b) = with_base_case(seed, idx);
+        st.nontrivial(hash64(&(s.files.clone(), b.to_string())));
+        check_with_base(&s, &b, st)
+    }
+    fn run_json(&self, case: &Value, st: &mut Stats) -> Vec<Violation> {
+        check_with_base(&Sources::from_json(&case["sources"]), &case["base"], st)
+    }
+    fn chunk(&self) -> u64 {
+        100
+    }
+}
+
 /// The document as the command-line compiler writes it: a series of accepted programs, largest first, is
 /// compiled into the same target path of one workspace (a target is normally regenerated, not created); after
 /// each run the target's text must parse, be valid, and be the document the library builds for that program.
@@ -244,6 +324,10 @@ pub fn run(ctx: &Ctx) -> i32 {
         n: if ctx.quick() { 3000 } else { 100_000 },
     };
     acc.pool(&ni, "c03ids", false);
+    let wb = WithBase {
+        n: if ctx.quick() { 2000 } else { 50_000 },
+    };
+    acc.pool(&wb, "c03base", false);
     // Canary: a dangling $ref and a missing path parameter must be flagged.
     let bad = json!({"paths": {"/a/{x}": {"get": {"responses": {"700": {"description": ""}}, "operationId": "get-a-x"},
         "parameters": []}}, "components": {"schemas": {"a": {"$ref": "#/components/schemas/missing"}}}});
